@@ -84,10 +84,25 @@ def run_case(desc):
     if c1.sg != c2.sg:
         out.discard = "ill-conditioned"
         return out
+    from vlib.case import dhash
+    rounded = int(dhash(desc), 16) % 5 == 2
+    if rounded:
+        # FILE PRECISION: the second presentation as it comes back from a file - Cartesian positions and cell rounded to four decimals
+        # (deviation from the ideal symmetry up to ~5e-5 A: far below the tolerance MatID is given, above spglib's own default).
+        # Kept only if the independent search still finds the same group between 3e-4 and 1e-2 (x length scale).
+        cell_r, pos_r = np.round(c2.cell, 4), np.round(c2.pos, 4)
+        d_lo = gx.spglib_group(cell_r, pos_r, c2.nums, 3e-4 * c2.scale)
+        d_hi = gx.spglib_group(cell_r, pos_r, c2.nums, 1e-2 * c2.scale)
+        d_mid = gx.spglib_group(cell_r, pos_r, c2.nums, c2.tol)
+        if any(d is None or int(d.number) != c1.sg for d in (d_lo, d_hi, d_mid)):
+            out.discard = "ill-conditioned-after-rounding"
+            return out
+        c2.cell, c2.pos = cell_r, pos_r
+        c2.at = gx.make_atoms(cell_r, pos_r, c2.nums)
+        out.cls("file-precision:4-decimals")
     ok, r1 = call(describe, c1)
     if not ok:
         return out.fail("returns-normally", "%r" % r1, key="exc:" + exc_key(r1))
-    from vlib.case import dhash
     reuse = int(dhash(desc), 16) % 4 == 0
     if reuse:
         # ONE analyser for both presentations (a quarter of the cases): it described presentation 1, is handed presentation 2
@@ -111,7 +126,9 @@ def run_case(desc):
         if d1[k] != d2[k]:
             out.fail("normal-form:" + k, "%s differs%s: %r vs %r" % (k, what, d1[k], d2[k]))
     cs = spgref.crystal_system(c1.sg)
-    if not d1["has_free"] and not d2["has_free"] and cs in ("tetragonal", "trigonal", "hexagonal", "cubic"):
+    if rounded:
+        out.cls("cell-not-compared:file-precision")
+    elif not d1["has_free"] and not d2["has_free"] and cs in ("tetragonal", "trigonal", "hexagonal", "cubic"):
         out.cls("cell-compared")
         from vlib.props.c05 import cellpar
         p1, p2 = cellpar(conv1.get_cell()), cellpar(conv2.get_cell())
